@@ -107,6 +107,7 @@ fn main() {
                     "i32" | "i64" => ("7".to_string(), "int"),
                     "bool" => ("true".to_string(), "bool"),
                     "Map<MetadataKey, MetadataValue>" | "Metadata" => ("[(\"color\".to_owned(), \"blue\".to_owned()), (\"shape\".to_owned(), \"round\".to_owned())].into_iter().collect::<s3s::dto::Metadata>()".to_string(), "metadata"),
+                    "StreamingBlob" => ("s3s::dto::StreamingBlob::from(s3s::Body::from(\"F-body \\r\\n\\u{0} bytes\".to_owned()))".to_string(), "blob"),
                     "ContentType" => ("\"text/plain; charset=utf-8\".parse::<s3s::dto::ContentType>().unwrap()".to_string(), "mime"),
                     x if strnew.contains(x) => (format!("s3s::dto::{x}::from(\"F-{f}\".to_owned())"), "string"),
                     _ => continue,
